@@ -38,7 +38,7 @@ def cells_equal(a, b):
 # three-valued meaning of a program on a row: True / False / None (free)
 def cond3(cell, op, const):
     if cell is None:
-        return None if op in ("!=", "not in") else False
+        return None if op in ("!=", "not in", "~") else False
     return FL.sat_cond(cell, op, const)        # None when the comparison raises
 
 
@@ -353,7 +353,7 @@ def run_dataset(job):
                             if g2 == gi and len(dp) > 1 and cname in allcols and (cols is None or cname in cols) and sum(dp) == n:
                                 cellsv = [rows[a + i][cname] for i in range(n)]
                                 pm.append({"col": cname, "rg": gi, "pages": dp, "mask": [bool(x) for x in sl],
-                                           "kind": "V2" if spec.get("v2") else ("V1nodefi" if spec["cols"].get(cname, {}).get("kind") in ("int", "bool") else "V1defi"),
+                                           "kind": "V2" if spec.get("v2") else ("V1nodefi" if spec["cols"].get(cname, {}).get("kind") in ("int", "bool", "uint") else "V1defi"),
                                            "nulls": [c is None for c in cellsv]})
                     a += n
                 o["page_models"] = pm[:8]
@@ -426,12 +426,12 @@ def has_wrong_type(spec, prog):
     return False
 
 
-def gen_job(rng, v2=False, want_model=True, nprog=20, nmask=6, nseq=3):
-    spec = FL.gen_dataset(rng, sizes=[1, 2, 3, 5, 8, 12], cat=(rng.random() < 0.3))
+def gen_job(rng, v2=False, want_model=True, nprog=20, nmask=6, nseq=3, flavour=None):
+    spec = FL.gen_dataset(rng, sizes=[1, 2, 3, 5, 8, 12], cat=(rng.random() < 0.3)) if flavour is None else FL.gen_dataset_w3(rng, flavour)
     if "c" in spec["cols"]:
         # categorical statistics are C04's open defect: keep them out of the pruning
         spec["stats"] = [c for c in spec["cols"] if c != "c" and c not in spec["partition_on"]] if spec["stats"] is not False else False
-    spec["page_size"] = rng.choice([None, 16, 24, 40, 64])
+    spec["page_size"] = rng.choice([None, 16, 24, 40, 64]) if flavour != "long" else None
     spec["compression"] = rng.choice([None, None, "SNAPPY", "GZIP", "ZSTD"])
     cand = [c for c in spec["cols"] if c != "rid" and c not in spec["partition_on"] and spec["cols"][c]["kind"] == "str"
             and all(v is not None for v in spec["cols"][c]["values"])]
@@ -442,7 +442,7 @@ def gen_job(rng, v2=False, want_model=True, nprog=20, nmask=6, nseq=3):
     names = [c for c in spec["cols"] if c != "rid"]
     progs = []
     for _ in range(nprog):
-        prog = FL.gen_program(rng, spec, ch, wrong_type=0.02)
+        prog = FL.gen_program(rng, spec, ch, wrong_type=0.02, tilde=0.25)
         r = rng.random()
         cols = None if r < 0.5 else (["rid"] if r < 0.7 else ["rid"] + rng.sample(names, rng.randrange(1, len(names) + 1)))
         progs.append((prog, cols))
@@ -513,7 +513,7 @@ def gen_job(rng, v2=False, want_model=True, nprog=20, nmask=6, nseq=3):
                 seq.append(["mask", masks[rng.randrange(len(masks))][0] if masks and rng.random() < 0.5 else
                             {rng.choice(["rg_only", "rg_off"]): rng.randrange(2), "hole": rng.randrange(spec["n"]) if rng.random() < 0.3 else None}, cols])
             elif kind in ("prog", "iter"):
-                seq.append([kind, FL.gen_program(rng, spec, ch, wrong_type=0), cols])
+                seq.append([kind, FL.gen_program(rng, spec, ch, wrong_type=0, tilde=0.25), cols])
             elif kind in ("count", "pruned"):
                 seq.append([kind, FL.gen_program(rng, spec, ch, wrong_type=0)])
             elif kind == "rgfile":
@@ -579,6 +579,11 @@ def run(ctx):
     ncorpus = len(jobs)
     for _ in range(n_ds):
         jobs.append(gen_job(rng, v2=(rng.random() < 0.35), nprog=20 if quick else 40, nmask=6 if quick else 10))
+    # wave-3 datasets of C05 (tz-aware timestamps against constants in other zones, partition keys at integer representation
+    # boundaries, one-sided / foreign statistics, long text) under row-level filtering
+    for flavour, cnt in (("tz", 10 if quick else 60), ("bigpart", 6 if quick else 40), ("onesided", 6 if quick else 40), ("long", 4 if quick else 30)):
+        for _ in range(cnt):
+            jobs.append(gen_job(rng, v2=(rng.random() < 0.35), nprog=16 if quick else 40, nmask=3, nseq=2, flavour=flavour))
     results = C.pmap(run_dataset, jobs, init=_init, nproc=min(8, os.cpu_count() or 4), job_timeout=300)
 
     mexprs, mmeta = [], []
@@ -597,6 +602,7 @@ def run(ctx):
             ctx.case({"spec": spec, "error": res["error"]}, trivial=True)
             continue
         ctx.count("dataset.scheme", spec["scheme"] + ("+parts" if spec["partition_on"] else ""))
+        ctx.count("dataset.flavour", spec.get("flavour", "random"))
         for (prog, cols), o in zip(progs, res["progs"]):
             case = {"spec": spec, "prog": prog, "columns": cols}
             for g in prog["groups"]:
@@ -635,7 +641,9 @@ def run(ctx):
                 problems.append(("count-differs", "count(filters, row_filter=True) = %s but the read returned %s rows" % (o["count"], o["len"])))
             if problems:
                 ctx.fail(classify(spec, prog, problems[0][0], cols), case, "; ".join(p[1] for p in problems))
-            if "model" in o and has_wrong_type(spec, prog):
+            if "model" in o and any(op == "~" for g in prog["groups"] for _, op, _ in g):
+                ctx.count("model.skipped", "'~' operator (oracle only)")
+            elif "model" in o and has_wrong_type(spec, prog):
                 # a constant of another type than the column (text against an integer-valued directory level, ...): how the
                 # code types such a pair is not modelled row-wise (C08's typing rules decide); outside the grammar
                 ctx.count("model.skipped", "wrong-typed constant, read did not raise")
